@@ -1359,8 +1359,24 @@ class GenScope:
         self.site = 0
         self.val = 100
         self.features = set()
-        self.locals = ['_a', '_b', '_c']
-        self.globals = ['ga', 'gb', 'gc']
+        # names drawn over the whole alphabet (boundary letters a/z weighted), digits and underscores
+        alpha = 'abcdefghijklmnopqrstuvwxyz' + 'azzy'
+        def mk(prefix):
+            while True:
+                n = prefix + ''.join(rng.choice(alpha + '_0123456789' if i else alpha) for i in range(rng.randint(1, 4)))
+                yield n
+        self.locals = []
+        gen = mk('_v')
+        while len(self.locals) < 3:
+            n = next(gen)
+            if n not in self.locals:
+                self.locals.append(n)
+        self.globals = []
+        gen = mk('gq')
+        while len(self.globals) < 3:
+            n = next(gen) + str(rng.randint(0, 9))
+            if n not in self.globals:
+                self.globals.append(n)
         self.nsid = 0
 
     def next_site(self):
